@@ -332,7 +332,7 @@ def main(tier: str, replay: str | None = None):
         print(f"  [{time.time() - t0:5.1f}s] rows and corpus done", flush=True)
     run.exhaustive = True
     # vacuity on the binding side: every statement form, every hazard class and the crash path were reached by replayed programs
-    if len(stats["pairs"]) < (12 if only else 50):
+    if len(stats["pairs"]) < (12 if only else 52):
         die(f"C01: the replayed programs use only {len(stats['pairs'])} statement forms: vacuous")
     stats["pairs"] = len(stats["pairs"])
     run.extra["c01"] = {k: v for k, v in sorted(stats.items())}
